@@ -112,3 +112,47 @@ Proof.
   destruct (c >=? 0) eqn:E; cbn [obind]; [reflexivity|].
   rewrite (chk_i32_some (c + 7)) by lia. reflexivity.
 Qed.
+
+(** * part 2: year / day arithmetic kernels (ModelCal.v) *)
+From Tetl Require Import C11.ModelCal.
+
+Theorem gen_year_plus_eq : forall y dy, Gen_chrono.year_plus_g y dy = year_plus_m y dy.
+Proof. intros y dy. reflexivity. Qed.
+
+Theorem gen_year_diff_eq : forall a b, of_opt (Gen_chrono.year_diff_g a b) = year_diff_m a b.
+Proof.
+  intros a b. unfold Gen_chrono.year_diff_g, year_diff_m, s32.
+  destruct (chk i32 (a - b)); reflexivity.
+Qed.
+
+(* operator+(day, days) / operator-(day, days): the value handed to the day constructor; the
+   constructor's TETL_PRECONDITION (modelled in day_ctor_m) is not part of the regenerated kernel *)
+Theorem gen_day_plus_eq : forall d dd,
+  day_plus_m d dd = Contract \/ of_opt (Gen_chrono.day_plus_g d dd) = day_plus_m d dd.
+Proof.
+  intros d dd. unfold Gen_chrono.day_plus_g, day_plus_m, day_ctor_m.
+  destruct (_ <? 255); [right; reflexivity|left; reflexivity].
+Qed.
+
+Theorem gen_day_minus_days_eq : forall d dd,
+  day_minus_days_m d dd = Contract \/ of_opt (Gen_chrono.day_minus_days_g d dd) = day_minus_days_m d dd.
+Proof.
+  intros d dd. unfold Gen_chrono.day_minus_days_g, day_minus_days_m, day_ctor_m.
+  destruct (_ <? 255); [right; reflexivity|left; reflexivity].
+Qed.
+
+Theorem gen_day_diff_eq : forall a b, 0 <= a <= 255 -> 0 <= b <= 255 ->
+  Gen_chrono.day_diff_g a b = Some (day_diff_m a b).
+Proof.
+  intros a b Ha Hb. unfold Gen_chrono.day_diff_g, day_diff_m.
+  assert (Ea : wrap_ty i32 a = a).
+  { cbv [wrap_ty sgn bits i32 wraps]. change (2 ^ 32) with 4294967296. change (2 ^ (32 - 1)) with 2147483648.
+    destruct (_ <? _) eqn:E; lia. }
+  assert (Eb : wrap_ty i32 b = b).
+  { cbv [wrap_ty sgn bits i32 wraps]. change (2 ^ 32) with 4294967296. change (2 ^ (32 - 1)) with 2147483648.
+    destruct (_ <? _) eqn:E; lia. }
+  rewrite Ea, Eb. rewrite chk_i32_some by lia. reflexivity.
+Qed.
+
+Theorem gen_weekday_iso_eq : forall w, Gen_chrono.weekday_iso_g w = Some (weekday_iso_m w).
+Proof. intros w. reflexivity. Qed.
